@@ -92,6 +92,8 @@ type FnV struct {
 	retCount int
 	labels   map[ast.Stmt]string
 	shared   map[types.Object]bool
+	inTask   int
+	autoInv  []*Clause
 	loopHid  types.Object
 	loopBind func(*State)
 	applyHook func(*State)
@@ -898,7 +900,9 @@ func (v *FnV) multi(st *State, e ast.Expr, n int) []Value {
 			t := v.typeOf(x.Type)
 			ok := v.c.hasType(iv.S, t)
 			okn := st.define("ok", "Bool", ok)
-			val := sIte(okn, v.c.fromIface(iv.S, t), v.c.zeroOf(t))
+			pv := v.c.fromIface(iv.S, t)
+			st.assume(sImp(okn, v.c.rangeOf(t, pv, st.alloc)))
+			val := sIte(okn, pv, v.c.zeroOf(t))
 			return []Value{{T: t, S: val}, {T: tBool, S: okn}}
 		}
 	case *ast.IndexExpr:
@@ -1364,7 +1368,9 @@ func (v *FnV) typeSwitch(st *State, x *ast.TypeSwitchStmt, label string) Flow {
 		if obj := v.info().Implicits[cc]; obj != nil {
 			t := v.substT(obj.Type())
 			if single != nil && !isInterface(single) {
-				v.setVar(s, obj, Value{T: t, S: v.c.fromIface(iv.S, t)})
+				pv := v.c.fromIface(iv.S, t)
+				s.assume(v.c.rangeOf(t, pv, s.alloc))
+				v.setVar(s, obj, Value{T: t, S: pv})
 			} else {
 				v.setVar(s, obj, Value{T: t, S: iv.S})
 			}
@@ -1526,6 +1532,8 @@ func (v *FnV) loopCore(st *State, node ast.Stmt, label string, modified []ast.No
 	ls := v.loopClauses(ord)
 	hid, bind := v.loopHid, v.loopBind
 	v.loopHid, v.loopBind = nil, nil
+	ls.invs = append(ls.invs, v.autoInv...)
+	v.autoInv = nil
 	sc := &Scope{v: v, vars: map[string]Value{}, pkg: v.fr().pkg, pos: v.loopScopePos(node), old: v.entry, oldVars: v.entryVars()}
 	checkInvs := func(s *State, phase string) {
 		if hid != nil {
@@ -1814,6 +1822,7 @@ func (v *FnV) forStmt(st *State, x *ast.ForStmt, label string) Flow {
 	if x.Cond != nil {
 		mods = append(mods, x.Cond)
 	}
+	v.autoInv = v.countingLoopInvariant(x)
 	return v.loopCore(st, x, label, mods, nil, guard, func(s *State) Flow { return v.block(s, x.Body.List) }, post)
 }
 
@@ -2006,4 +2015,60 @@ func (v *FnV) runApplyHook(s *State) {
 		v.applyHook = nil
 		h(s)
 	}
+}
+
+// countingLoopInvariant recognises "for i := <int literal>; ...; i++" whose body
+// does not assign i and proposes the (checked) invariant i >= <literal>.
+func (v *FnV) countingLoopInvariant(x *ast.ForStmt) []*Clause {
+	as, ok := x.Init.(*ast.AssignStmt)
+	if !ok || as.Tok != token.DEFINE || len(as.Lhs) != 1 || len(as.Rhs) != 1 {
+		return nil
+	}
+	id, ok := as.Lhs[0].(*ast.Ident)
+	if !ok {
+		return nil
+	}
+	lit, ok := as.Rhs[0].(*ast.BasicLit)
+	if !ok || lit.Kind != token.INT {
+		return nil
+	}
+	inc, ok := x.Post.(*ast.IncDecStmt)
+	if !ok || inc.Tok != token.INC {
+		return nil
+	}
+	if pid, ok := inc.X.(*ast.Ident); !ok || pid.Name != id.Name {
+		return nil
+	}
+	obj := v.info().Defs[id]
+	assigned := false
+	ast.Inspect(x.Body, func(n ast.Node) bool {
+		switch s := n.(type) {
+		case *ast.AssignStmt:
+			for _, l := range s.Lhs {
+				if lid, ok := l.(*ast.Ident); ok && v.info().Uses[lid] == obj {
+					assigned = true
+				}
+			}
+		case *ast.IncDecStmt:
+			if lid, ok := s.X.(*ast.Ident); ok && v.info().Uses[lid] == obj {
+				assigned = true
+			}
+		case *ast.UnaryExpr:
+			if s.Op == token.AND {
+				if lid, ok := s.X.(*ast.Ident); ok && v.info().Uses[lid] == obj {
+					assigned = true
+				}
+			}
+		}
+		return true
+	})
+	if assigned {
+		return nil
+	}
+	text := id.Name + " >= " + lit.Value
+	e, err := parseSpec(text)
+	if err != nil {
+		return nil
+	}
+	return []*Clause{{Kind: "invariant", Label: "auto-counter", Expr: e, Text: text + " (synthesised for the counting loop)", Loop: -1}}
 }
